@@ -1384,6 +1384,10 @@ class Interp:
                 ptr, ob = (x, y) if isinstance(x, Pointer) else (y, x)
                 same = val(ptr.lv) is ob
                 return 1 if (same == (op == "==")) else 0
+            if op in ("==", "!=") and isinstance(x, (Vec, Obj, Arr)) and isinstance(y, (Vec, Obj, Arr)):
+                # a BUILT-IN comparison of two class-type values can only be a comparison of raw pointers to them
+                # (shared_ptr::get(), &obj): object identity
+                return 1 if ((x is y) == (op == "==")) else 0
             raise OutOfFragment("comparison %s of %r and %r" % (op, x, y))
         if op in ("+", "-", "*", "/") and isinstance(x, Sc) and isinstance(y, Sc):
             if op == "/" and y.v == 0:
